@@ -73,4 +73,8 @@ NoIntermediateLeft == pc = "done" => \A n \in DOMAIN fs : n[1] \notin {"chunk", 
 InputsPreserved == \A i \in 1..N : fs[<<"input", inputs[i]>>] = IF i \in converted THEN {"converted"} ELSE {"original"}
 EmitCase == pc = "verify" /\ cur = 1 => PrintT(<<"CASE", inputs, aggregate, decoys, rollup, ragged>>)
 GenOnly == pc = "verify" /\ cur = 1
+\* ---- liveness (checked by Pipeline_live.cfg): under weak fairness of the next-state action every behaviour comes to rest
+\* in a state without successor -- the modelled procedure terminates for every input, schedule and fault inside the bounds
+FairSpec == Spec /\ WF_vars(Next)
+Halts == <>[](~ENABLED Next)
 =============================================================================
